@@ -66,6 +66,9 @@ B. LIBRARY SIDE — quantem is imported lazily inside the functions.
                                   ndarrays, torch.autograd.grad on the public forward chain (call
                                   set_loss_type(lt) first so that the targets match)
         lib_geometry()            dict: obj_shape [S,H,W], obj_padding_px, positions_px, patch_indices, sampling
+        lib_placement(idx=None)   dict from ONE dset.forward call: positions_px, origin_mod (patch origin modulo
+                                  the object shape, read from patch_indices[:,0,0]), frac (shift given to the probe),
+                                  obj_shape -- consistency means (origin_mod + frac - position) = 0 modulo the shape
    Perturbation alphabet (phase-only, so the default hard constraints stay no-ops): object "kick" = +1.5 rad on
    the pixel under the first probe (slice 0), "ramp" = linear phase ramp of 3.6/-2.4 rad across the object,
    "noise" = uniform +-0.3 rad from `rng`; probe "defocus" = +1200 A on every mode, "mode_amp" = strongest mode x1.4.
@@ -86,6 +89,10 @@ CONFIG (all JSON-able; missing keys take the defaults in DEFAULTS):
    dose       total probe intensity = mean pattern intensity
    defocus, mode_defocus_step (Angstrom), aperture_frac (of the smaller Nyquist frequency)
    phase_sigma  rad, standard deviation of the object phase
+   tie        "even" | "up": which pixel the SIMULATOR takes as patch origin when a position is an exact half-pixel
+              tie (round-half-to-even like numpy/torch round, or floor(p+0.5)); the fractional shift follows
+              (position - origin), so either choice is self-consistent.  geometry() also reports .ties / .exact_ties
+              (J,2 bool), .has_ties, .fragile_fov; .fragile = fragile_fov or has_ties.
    learn_scan_positions, learn_descan   bool (default False): make the dataset model's scan positions / descan shifts
               learnable, so that optimizer_params may carry a "dataset" entry (used by C05: the dataset model then owns
               optimizer state of its own that a resume path must carry along)
@@ -118,6 +125,7 @@ DEFAULTS = {
     "phase_sigma": 0.5,
     "learn_scan_positions": False,
     "learn_descan": False,
+    "tie": "even",
 }
 STEP_KINDS = {"commensurate": (2.0, 2.0), "fractional": (1.3, 1.7)}
 OBJECT_PERTURBATIONS = ("kick", "ramp", "noise")
@@ -201,10 +209,22 @@ def geometry(cfg: dict) -> Geometry:
     ii, jj = np.meshgrid(np.arange(scan[0]), np.arange(scan[1]), indexing="ij")
     pos = np.stack([ii.ravel() * step[0] / samp[0] + pad_adj[0], jj.ravel() * step[1] / samp[1] + pad_adj[1]], axis=-1)
     g.positions_px = pos
-    # a position within 1e-4 px of a half-integer makes round() a coin-toss as well
-    g.fragile = fragile or bool((np.abs(np.abs(pos - np.round(pos)) - 0.5) < 1e-4).any())
+    # a position within 1e-4 px of a half-integer makes round() a coin-toss as well, unless it is an EXACT tie
+    # (dyadic sampling/steps): then the nearest pixel is a matter of convention, chosen by cfg["tie"]:
+    # "even" = round half to even (numpy/torch round), "up" = floor(p + 0.5).  The physics prescribes neither,
+    # only that patch origin + fractional shift = position.
+    g.ties = np.abs(np.abs(pos - np.round(pos)) - 0.5) < 1e-4  # (J,2) bool
+    g.exact_ties = (pos - np.floor(pos)) == 0.5
+    g.has_ties = bool(g.ties.any())
+    g.fragile_fov = fragile
+    g.fragile = fragile or g.has_ties
     g.num_patterns = int(pos.shape[0])
-    g.origin = np.round(pos).astype(int)  # probe centre pixel = patch origin
+    if c.get("tie", "even") == "up":
+        g.origin = np.floor(pos + 0.5).astype(int)
+    elif c.get("tie", "even") == "even":
+        g.origin = np.round(pos).astype(int)  # probe centre pixel = patch origin
+    else:
+        raise ValueError(f"tie must be 'even' or 'up', got {c['tie']!r}")
     g.frac = pos - g.origin
     if not g.degenerate:
         ro, co = _fft_order(roi[0]), _fft_order(roi[1])
@@ -412,6 +432,25 @@ class Problem(types.SimpleNamespace):
         go = np.concatenate([np.ravel(x) for x in gs[: len(po)]])
         gp = np.concatenate([np.ravel(x) for x in gs[len(po) :]])
         return float(l), go, gp
+
+    def lib_placement(self, idx=None):
+        """How one forward pass places every probe: dict with positions_px (batch,2), origin_mod (batch,2) = patch
+        origin modulo the object shape (read from patch_indices[:, 0, 0]), frac (batch,2) = the fractional shift
+        handed to the probe model; all taken from ONE public dset.forward call."""
+        import torch
+
+        p = self.ptycho
+        idx = np.arange(self.num_patterns) if idx is None else np.asarray(idx)
+        with torch.no_grad():
+            patch_indices, pos, pos_frac, _descan = p.dset.forward(idx, p.obj_padding_px)
+        W = int(p.obj_shape_full[-1])
+        flat0 = patch_indices[:, 0, 0].detach().cpu().numpy().astype(np.int64)
+        return {
+            "positions_px": pos.detach().cpu().numpy().astype(float),
+            "origin_mod": np.stack([flat0 // W, flat0 % W], axis=-1),
+            "frac": pos_frac.detach().cpu().numpy().astype(float),
+            "obj_shape": np.array([int(v) for v in p.obj_shape_full[-2:]]),
+        }
 
     def lib_geometry(self):
         p = self.ptycho
